@@ -58,3 +58,14 @@ package actionlint
 //@   anchor
 //@   requires ac != nil && rwc != nil && (proj == nil ==> ac.proj == nil && rwc.proj == nil) && (proj != nil ==> ac.proj != nil && ac.proj.root == proj.root && rwc.proj != nil && rwc.proj.root == proj.root)
 //@   at_call (*Linter).check: (project == nil ==> localActions.proj == nil && localReusableWorkflows.proj == nil) && (project != nil ==> localActions.proj != nil && localActions.proj.root == project.root && localReusableWorkflows.proj != nil && localReusableWorkflows.proj.root == project.root)
+
+// a cache entry is read and written under the very spec it is looked up for: two different specs
+// never share an entry (the result for one file does not depend on which other file asked first)
+//@ func (*LocalActionsCache).FindMetadata
+//@   props C10
+//@   at_call (*LocalActionsCache).readCache: key == spec0
+//@   at_call (*LocalActionsCache).writeCache: key == spec0
+//@ func (*LocalReusableWorkflowCache).FindMetadata
+//@   props C10
+//@   at_call (*LocalReusableWorkflowCache).readCache: key == spec0
+//@   at_call (*LocalReusableWorkflowCache).writeCache: key == spec0
